@@ -176,7 +176,13 @@ func H_c06s(p []int) {
 	if wf && outerUnsafe {
 		vAssert(bytesEq(delEnv(out), []byte("a  b")), "C06/unsafe-envelopes-all-script")
 	}
-	if wf && !outerUnsafe && flavour == 0 {
+	hasRedactable := false
+	for _, st := range steps {
+		if st == stPrintRedactable {
+			hasRedactable = true // a redactable keeps its own envelopes under Safe(): it has a classification of its own
+		}
+	}
+	if wf && !outerUnsafe && flavour == 0 && !hasRedactable {
 		// Safe(x), x a plain fmt.Formatter (no classification of its own):
 		// no envelope at all
 		vAssert(!hasMarker(out), "C06/safe-envelopes-none-script")
